@@ -1167,3 +1167,13 @@ def analysis_globals(p):
 def coq_globals(p):
     g = analysis_globals(p)
     return "[" + "; ".join(f"({_cs(k)}, {'true' if v else 'false'})" for k, v in sorted(g.items())) + "]"
+
+
+def load_corpus():
+    """Minimised past failures / named shapes (corpus/C01/corpus.json), run first on every check."""
+    import json
+    import os
+    path = os.path.join(os.path.dirname(os.path.dirname(os.path.abspath(__file__))), "corpus", "C01", "corpus.json")
+    if not os.path.exists(path):
+        return []
+    return json.load(open(path))
